@@ -16,7 +16,7 @@ TYPES = ["String", "u32", "i64", "PathBuf", "OsString"]
 WORDS = ["alpha", "bravo", "dry_run", "level2", "out_dir", "jobs", "verbose_mode", "x_y_z",
          "input", "no_color", "target", "kilo", "lima", "mike", "file_name", "max_depth"]
 VARIANTS = ["Alpha", "DryRun", "Level2", "OutDir", "Jobs", "VerboseMode", "Input", "NoColor",
-            "TargetDir", "Kilo", "Lima", "MikeNovember"]
+            "TargetDir", "Kilo", "Lima", "MikeNovember", "Zulu", "MaxZone", "QuietX", "YankeeZ"]
 LETTERS = "abcdefgijklmnopqrstuwxyz"
 # Rust keywords usable as raw identifiers: `r#type: T` is the option `--type` / `-t`
 RAW = ["type", "loop", "match", "move", "where"]
